@@ -3,6 +3,9 @@
  * uid at every position or absent, call only_uid / exclude_uid / only_root through the filter registry and compare with
  * plain set membership (reference: strtoull of each item == uid).
  * usage: h_uid <maxlen> ; output: "uid=<u> lists=<n> mismatches=<m>" and one "MISMATCH ..." line per disagreement (first 50). */
+#define _GNU_SOURCE
+#include <sched.h>
+#include <sys/mount.h>
 #include <stdio.h>
 #include <stdlib.h>
 #include <string.h>
@@ -35,6 +38,9 @@ static void rec(char *buf, size_t len, int depth, int maxlen, int member) {
 int main(int argc, char **argv) {
     int maxlen = argc > 1 ? atoi(argv[1]) : 3; static char line[1 << 16]; static char buf[1 << 16];
     strcpy(verif_cfgpath, "/nonexistent/verif/snoopy.ini");
+    /* a user database of the harness's making (private mount namespace): e.g. login names that consist of digits */
+    { const char *etc = getenv("VERIF_ETC_DIR"); if (etc && *etc) { char a[4096], b[4096]; snprintf(a, sizeof a, "%s/passwd", etc); snprintf(b, sizeof b, "%s/group", etc);
+        if (unshare(CLONE_NEWNS) || mount("none", "/", NULL, MS_REC | MS_PRIVATE, NULL) || mount(a, "/etc/passwd", NULL, MS_BIND, NULL) || mount(b, "/etc/group", NULL, MS_BIND, NULL)) { perror("bind user database"); return 3; } } }
     while (fgets(line, sizeof line, stdin)) {
         nitems = 0; char *sv = NULL; char *t = strtok_r(line, " \n", &sv); if (!t) continue; U = strtoull(t, NULL, 10);
         while ((t = strtok_r(NULL, " \n", &sv)) && nitems < 64) items[nitems++] = t;
